@@ -405,7 +405,7 @@ def main():
         # both tiers: the property's whole probe catalogue is replayed against the real crate (a BOUNDED conformance run of
         # the assumed contracts A9-A11 and of the extraction; it takes about a second once the replay binary is built).
         # Never counted as proved; a reproduced scenario is a violation confirmed on the real code by construction.
-        probes_run, bad = vcex.run_all_probes(pid, seed)
+        probes_run, bad = vcex.run_all_probes(pid, seed, tier)
         for b in bad:
             if b.get('infra'):
                 undecided.append(b['output'])
